@@ -218,6 +218,8 @@ Definition nm_least : bytes := [108;101;97;115;116]%N.
 Definition nm_len : bytes := [108;101;110]%N.
 Definition nm_length : bytes := [108;101;110;103;116;104]%N.
 Definition nm_lower : bytes := [108;111;119;101;114]%N.
+Definition nm_lpad : bytes := [108;112;97;100]%N.
+Definition nm_rpad : bytes := [114;112;97;100]%N.
 Definition nm_mod : bytes := [109;111;100]%N.
 Definition nm_round : bytes := [114;111;117;110;100]%N.
 Definition nm_sign : bytes := [115;105;103;110]%N.
@@ -271,6 +273,43 @@ Fixpoint fn_extreme (gt : bool) (cur : xvalue) (args : list xvalue) : xfres :=
             end
         end
       end
+  end.
+
+(* lpad / rpad (functions/functions_string.go LpadFunction / RpadFunction.Execute): the string is
+   brought to [n] BYTES by the pad string repeated cyclically and cut to the gap; an empty pad is a
+   blank; a string that is already long enough is returned as it is.
+   [pad_cycle pad cur k] = the first k bytes of cur ++ pad ++ pad ++ ... *)
+Fixpoint pad_cycle (pad cur : bytes) (k : nat) : bytes :=
+  match k with
+  | O => []
+  | S k' => match cur with
+            | c :: r => c :: pad_cycle pad r k'
+            | [] => match pad with
+                    | c :: r => c :: pad_cycle pad r k'
+                    | [] => []
+                    end
+            end
+  end.
+Definition pad_fill (pad : bytes) (k : nat) : bytes :=
+  let p := match pad with [] => [32]%N | _ :: _ => pad end in pad_cycle p p k.
+Definition pad_value (left : bool) (s : bytes) (n : nat) (pad : bytes) : bytes :=
+  if Nat.leb n (length s) then s
+  else let fill := pad_fill pad (n - length s) in if left then fill ++ s else s ++ fill.
+(* the length argument goes through cast.ToInt64E: modelled for a non-negative integral number *)
+Definition fn_pad (left : bool) (args : list xvalue) : xfres :=
+  let go (sv nv : xvalue) (pad : option bytes) : xfres :=
+    match to_string sv, nv, pad with
+    | Some s, VNum q, Some p =>
+        match qis_nat q with
+        | Some n => FOk (VStr (pad_value left s n p))
+        | None => FUnmodelled
+        end
+    | _, _, _ => FUnmodelled
+    end in
+  match args with
+  | [sv; nv] => go sv nv (Some [])
+  | [sv; nv; pv] => go sv nv (to_string pv)
+  | _ => FErr (* Validate: argument count *)
   end.
 
 Definition fn_call (name : bytes) (args : list xvalue) : xfres :=
@@ -327,6 +366,8 @@ Definition fn_call (name : bytes) (args : list xvalue) : xfres :=
     end
   else if bytes_eqb name nm_concat then
     match args with [] => FErr | _ => fn_concat args [] end
+  else if bytes_eqb name nm_lpad then fn_pad true args
+  else if bytes_eqb name nm_rpad then fn_pad false args
   else FUnmodelled.
 
 (* ---- results ---- *)
